@@ -320,6 +320,7 @@ class Executor(object):
         self._print_execution_plan = print_execution_plan
 
         self._do_builds = do_builds
+        self._build_lock = RLock()
         self.ui = ui
         self._include_faulty = include_faulty
         self.debug = debug
@@ -382,10 +383,16 @@ class Executor(object):
         if not build or build.is_built:
             return
 
-        if build.build_failed:
-            run_id.fail_immediately()
-            raise FailedBuilding(name, build)
-        self._execute_build_cmd(build, location, name, run_id)
+        # a build can be shared by runs that the parallel scheduler executes
+        # on different threads: check, execute, and mark it under a lock
+        with self._build_lock:
+            if build.is_built:
+                return
+
+            if build.build_failed:
+                run_id.fail_immediately()
+                raise FailedBuilding(name, build)
+            self._execute_build_cmd(build, location, name, run_id)
 
     def _execute_build_cmd(self, build_command: BuildCommand, location: Optional[str],
                            name: str, run_id: "RunId"):
